@@ -3,6 +3,7 @@ package h
 import (
 	"encoding/json"
 	"fmt"
+	"github.com/netflix/rend/verifshim/vsync"
 	"hash/fnv"
 
 	"verif/rt"
@@ -89,6 +90,10 @@ func stripeOf(key string, conc uint8) int {
 }
 
 func runC03(c *rt.Ctx) {
+	// sync.Pool may drop what it holds at any garbage collection: here it always does (every Get
+	// builds a new object), so nothing the wrapper computes may depend on which pooled object
+	// happens to come back
+	vsync.DropPuts = true
 	item := 0
 	totalOutcomes := 0
 	explore := func(sc ConcScenario, bound int) {
